@@ -14,66 +14,164 @@ Inductive gframe :=
 | GStream (id : Z) | GResetStream (id : Z) | GStreamDataBlocked (id : Z)   (* getReceiveStream *)
 | GStopSending (id : Z) | GMaxStreamData (id : Z)                            (* getSendStream *)
 | GPing
-| GMaxStreams (uni : bool) (n : Z).
+| GMaxStreams (uni : bool) (n : Z)
+| GStreamFin (id : Z).                                                       (* STREAM with FIN *)
 
 Definition gframe_op (f : gframe) : option op :=
   match f with
-  | GStream id | GResetStream id | GStreamDataBlocked id => Some (ORecv id)
+  | GStream id | GResetStream id | GStreamDataBlocked id | GStreamFin id => Some (ORecv id)
   | GStopSending id | GMaxStreamData id => Some (OSend id)
   | GPing => None
   | GMaxStreams u n => Some (OMaxStreams u n)
   end.
 
-(** handleFrames: None = no error, else the error class of the first failing frame *)
-Fixpoint handle_packet (s : smap) (fs : list gframe) : smap * option Z :=
+(** the frames that tell the final size of a stream *)
+Definition gframe_final (f : gframe) : option Z :=
+  match f with GStreamFin id | GResetStream id => Some id | _ => None end.
+
+(** The connection's side of a stream's life (stream.go / receive_stream.go / send_stream.go as
+    far as the streams map is concerned): the application abandons a stream it holds (CancelRead,
+    CancelWrite, the RESET_STREAM gets acknowledged) - [g_cancel]; the peer's FIN or RESET_STREAM
+    fixes the final size - [g_final]. A stream with a receive half is completed when both have
+    happened, our own unidirectional stream when it is abandoned; at that moment, once,
+    Conn.onStreamCompleted calls streamsMap.DeleteStream - [g_done]. *)
+Record gstate := mkG {
+  g_sm : smap;
+  g_cancel : list Z;
+  g_final : list Z;
+  g_done : list Z;
+  g_nextA : Z           (* fresh ids for AcceptStream calls *)
+}.
+
+Definition g_init (client : bool) (mb mu : Z) : gstate := mkG (init_sm client mb mu) [] [] [] 0.
+
+Definition has_recv_half (s : smap) (id : Z) : bool := negb (id_is_uni id && by_self s id).
+
+Definition maybe_complete (g : gstate) (id : Z) : gstate * list frame :=
+  if zmem id (g_cancel g) && (negb (has_recv_half (g_sm g) id) || zmem id (g_final g)) && negb (zmem id (g_done g))
+  then let '(s', _, fr) := tstep (g_sm g) (ODelete id) in
+       (mkG s' (g_cancel g) (g_final g) (zadd id (g_done g)) (g_nextA g), fr)
+  else (g, []).
+
+(** handleFrames: None = no error, else the error class of the first failing frame; the control
+    frames queued meanwhile *)
+Fixpoint handle_packet (g : gstate) (fs : list gframe) : gstate * option Z * list frame :=
   match fs with
-  | [] => (s, None)
+  | [] => (g, None, [])
   | f :: r =>
     match gframe_op f with
-    | None => handle_packet s r
+    | None => handle_packet g r
     | Some o =>
-      let '(s', x, _) := tstep s o in
-      match x with RErr e => (s', Some e) | _ => handle_packet s' r end
+      let '(s', x, fr1) := tstep (g_sm g) o in
+      let g1 := mkG s' (g_cancel g) (g_final g) (g_done g) (g_nextA g) in
+      match x with
+      | RErr e => (g1, Some e, fr1)
+      | _ =>
+        let '(g2, fr2) :=
+          match x, gframe_final f with
+          | RId _, Some id =>
+            maybe_complete (mkG s' (g_cancel g) (zadd id (g_final g)) (g_done g) (g_nextA g)) id
+          | _, _ => (g1, [])
+          end in
+        let '(g3, e, fr3) := handle_packet g2 r in (g3, e, fr1 ++ fr2 ++ fr3)
+      end
     end
   end.
 
-(** packets until the first error (the connection is closed with it) *)
-Fixpoint handle_conn (s : smap) (pkts : list (list gframe)) : smap * list Z :=
-  match pkts with
-  | [] => (s, [])
-  | p :: r =>
-    match handle_packet s p with
-    | (s', None) => let '(s2, es) := handle_conn s' r in (s2, 0 :: es)
-    | (s', Some e) => (s', [e])
+(** what the application / the handshake does between packets *)
+Inductive gaction :=
+| GAAccept (uni : bool)                 (* AcceptStream with a cancelled context: never blocks *)
+| GAAbandon (id : Z)                    (* CancelRead + CancelWrite on a stream it holds, reset acked *)
+| GAOpen (uni : bool)                   (* OpenStream / OpenUniStream *)
+| GAParams (nb nu : Z) (rsa : bool)     (* restore / apply the peer's transport params *)
+| GAReject0RTT                          (* dropEncryptionLevel(0-RTT) *)
+| GAUseReset                            (* NextConnection *)
+| GAOldStream.                          (* the application abandons a stream of before the 0-RTT rejection *)
+
+Inductive gstep := SPacket (fs : list gframe) | SApp (a : gaction).
+
+Definition res_code (x : res) : Z :=
+  match x with RId id => id | RErr e => - e | RParked => - ErrCtx | _ => 0 end.
+
+(** result code: packets: 0 or the error class; Accept/Open: the stream ID or minus the error class *)
+Definition glue_step (g : gstate) (st : gstep) : gstate * Z * list frame :=
+  match st with
+  | SPacket fs =>
+    let '(g', e, fr) := handle_packet g fs in (g', match e with Some c => c | None => 0 end, fr)
+  | SApp (GAAccept uni) =>
+    let a := g_nextA g in
+    let '(s1, x, fr) := tstep (g_sm g) (OAcceptCall uni a) in
+    let s2 := match x with RParked => fst (fst (tstep s1 (OAcceptCancel uni a))) | _ => s1 end in
+    (mkG s2 (g_cancel g) (g_final g) (g_done g) (a + 1), res_code x, fr)
+  | SApp (GAAbandon id) =>
+    let '(g', fr) := maybe_complete (mkG (g_sm g) (zadd id (g_cancel g)) (g_final g) (g_done g) (g_nextA g)) id in
+    (g', 0, fr)
+  | SApp (GAOpen uni) =>
+    let '(s1, x, fr) := tstep (g_sm g) (OOpen uni) in
+    (mkG s1 (g_cancel g) (g_final g) (g_done g) (g_nextA g), res_code x, fr)
+  | SApp (GAParams nb nu rsa) =>
+    let '(s1, _, fr) := tstep (g_sm g) (OTransportParams nb nu rsa) in
+    (mkG s1 (g_cancel g) (g_final g) (g_done g) (g_nextA g), 0, fr)
+  | SApp GAReject0RTT =>
+    let '(s1, _, fr) := tstep (g_sm g) OReset in (mkG s1 [] [] [] (g_nextA g), 0, fr)
+  | SApp GAUseReset =>
+    let '(s1, _, fr) := tstep (g_sm g) OUseReset in
+    (mkG s1 (g_cancel g) (g_final g) (g_done g) (g_nextA g), 0, fr)
+  | SApp GAOldStream => (g, 0, [])
+  end.
+
+(** steps until a packet fails (the connection is closed with that error) *)
+Fixpoint glue_run (g : gstate) (sts : list gstep) : gstate * list (Z * list frame) :=
+  match sts with
+  | [] => (g, [])
+  | st :: r =>
+    let '(g', c, fr) := glue_step g st in
+    match st with
+    | SPacket _ => if c =? 0 then let '(g2, out) := glue_run g' r in (g2, (c, fr) :: out) else (g', [(c, fr)])
+    | _ => let '(g2, out) := glue_run g' r in (g2, (c, fr) :: out)
     end
   end.
 
-(** (nextStreamToAccept, nextStreamToOpen, maxStream, number of streams in the map) *)
-Definition gsnap := (Z * Z * Z * Z)%type.
-Definition gsnap_of (m : inmap) : gsnap :=
-  (i_nextAccept m, i_nextOpen m, i_max m, Z.of_nat (List.length (i_streams m))).
+(** (nextStreamToAccept, nextStreamToOpen, maxStream, streams with shouldDelete) *)
+Definition gsnap := (Z * Z * Z * list (Z * bool))%type.
+Definition gsnap_of (m : inmap) : gsnap := (i_nextAccept m, i_nextOpen m, i_max m, i_streams m).
+(** (nextStream, maxStream, blockedSent, streams) *)
+Definition gosnap := (Z * Z * bool * list Z)%type.
+Definition gosnap_of (m : outmap) : gosnap := (o_next m, o_max m, o_blockedSent m, o_streams m).
 
 Inductive case :=
-| GlueCase (client tracer : bool) (maxBidi maxUni : Z) (pkts : list (list gframe))
-           (verdicts : list Z) (ib iu : gsnap).
+| GlueCase (client tracer : bool) (maxBidi maxUni : Z) (steps : list gstep)
+           (outs : list (Z * list frame)) (ib iu : gsnap) (ob ou : gosnap).
 
-Inductive obs := GlueObs (verdicts : list Z) (ib iu : gsnap).
+Inductive obs := GlueObs (outs : list (Z * list frame)) (ib iu : gsnap) (ob ou : gosnap).
 
 Definition model_obs (c : case) : obs :=
   match c with
-  | GlueCase client _ mb mu pkts _ _ _ =>
-    let '(s, es) := handle_conn (init_sm client mb mu) pkts in
-    GlueObs es (gsnap_of (s_ib s)) (gsnap_of (s_iu s))
+  | GlueCase client _ mb mu steps _ _ _ _ _ =>
+    let '(g, outs) := glue_run (g_init client mb mu) steps in
+    let s := g_sm g in
+    GlueObs outs (gsnap_of (s_ib s)) (gsnap_of (s_iu s)) (gosnap_of (s_ob s)) (gosnap_of (s_ou s))
   end.
 
-Fixpoint zlist_eqb (a b : list Z) : bool :=
-  match a, b with [], [] => true | x :: r, y :: s => (x =? y) && zlist_eqb r s | _, _ => false end.
+Fixpoint list_eqb {A} (f : A -> A -> bool) (a b : list A) : bool :=
+  match a, b with [], [] => true | x :: r, y :: s => f x y && list_eqb f r s | _, _ => false end.
+Definition frame_eqb (a b : frame) : bool :=
+  match a, b with
+  | FMax u x, FMax v y => Bool.eqb u v && (x =? y)
+  | FBlocked u x, FBlocked v y => Bool.eqb u v && (x =? y)
+  | _, _ => false
+  end.
+Definition out_eqb (a b : Z * list frame) : bool := (fst a =? fst b) && list_eqb frame_eqb (snd a) (snd b).
+Definition zb_eqb (a b : Z * bool) : bool := (fst a =? fst b) && Bool.eqb (snd a) (snd b).
 Definition gsnap_eqb (a b : gsnap) : bool :=
   let '(a1, a2, a3, a4) := a in let '(b1, b2, b3, b4) := b in
-  (a1 =? b1) && (a2 =? b2) && (a3 =? b3) && (a4 =? b4).
+  (a1 =? b1) && (a2 =? b2) && (a3 =? b3) && list_eqb zb_eqb a4 b4.
+Definition gosnap_eqb (a b : gosnap) : bool :=
+  let '(a1, a2, a3, a4) := a in let '(b1, b2, b3, b4) := b in
+  (a1 =? b1) && (a2 =? b2) && Bool.eqb a3 b3 && list_eqb Z.eqb a4 b4.
 
 Definition check_case (c : case) : bool :=
   match c, model_obs c with
-  | GlueCase _ _ _ _ _ vs ib iu, GlueObs vs' ib' iu' =>
-    zlist_eqb vs vs' && gsnap_eqb ib ib' && gsnap_eqb iu iu'
+  | GlueCase _ _ _ _ _ outs ib iu ob ou, GlueObs outs' ib' iu' ob' ou' =>
+    list_eqb out_eqb outs outs' && gsnap_eqb ib ib' && gsnap_eqb iu iu' && gosnap_eqb ob ob' && gosnap_eqb ou ou'
   end.
